@@ -373,15 +373,18 @@ def p3(ctx):
     prog = ctx.cxx()
     f = prog.one('PyTreeSpec::IsPrefix')
     cfg = cfg_of(f)
+    # the strictness flag is IsPrefix's second parameter (whatever it is called)
+    ctx.require(len(f.params) == 2, 'IsPrefix: %d parameters' % len(f.params))
+    sname = f.params[1][0]
     rets = [r for r in f.body.walk() if r.kind == 'ReturnStmt' and r.kids and
-            'strict' in r.kids[0].text(4)]
-    ctx.require(len(rets) == 1, 'IsPrefix: %d return statements mention `strict`' % len(rets))
+            re.search(r'\b%s\b' % re.escape(sname), r.kids[0].text(4))]
+    ctx.require(len(rets) == 1, 'IsPrefix: %d return statements mention the strictness flag' % len(rets))
     e = rets[0].kids[0]
     ok = e.kind == 'BinaryOperator' and e.op == '||'
     acc = None
     if ok:
         l, r = e.kids
-        ok = l.kind == 'UnaryOperator' and l.op == '!' and member_path(l.kids[0]) == 'strict' and \
+        ok = l.kind == 'UnaryOperator' and l.op == '!' and member_path(l.kids[0]) == sname and \
             r.kind == 'UnaryOperator' and r.op == '!' and member_path(r.kids[0]) is not None
         acc = member_path(r.kids[0]) if ok else None
     ctx.check('IsPrefix/strict-return', ok,
